@@ -248,6 +248,10 @@ func (c *Config) CheckRepresentations(g *Subgraph, reps []*J, entityFields map[s
 			bad("representation %d: %s is not an entity of subgraph %s", i, tn.Raw, g.Name)
 			continue
 		}
+		if st.Unresolvable {
+			bad("representation %d: %s is declared resolvable: false in subgraph %s", i, tn.Raw, g.Name)
+			continue
+		}
 		ok := false
 		for _, k := range st.Keys {
 			if reprCovers(rep, parseFieldSet(k)) {
